@@ -95,4 +95,11 @@ def bindFamily : BindRule → Family → Family
   | .anyV6, _ => .v6
   | .familyOfTarget, f => f
 
+/-- does a call on the relay's socket fail because an *earlier* datagram met a closed port?  (The OS rule, assumed: a
+    connected UDP socket reports the pending ICMP error on its next call, an unconnected one never does.) -/
+def staleError (connected icmpPending : Bool) : Bool := connected && icmpPending
+
+/-- both loops return on any socket error, which ends the association: does it outlive a datagram that met a closed port? -/
+def survivesUnreachable (connected : Bool) : Bool := !staleError connected true
+
 end AnyTLS.UdpRelay
